@@ -75,6 +75,9 @@ def run(cx, tier='quick'):
         check_match_shape(cx, t, fn, sites, rep)
     from .scope import check_scopes
     check_scopes(cx, rep, ['::ord::', '::partial_ord::'])
+    # "values of the same variant are ordered by their fields alone": the self / other binders of one arm never coincide
+    from .binders import check_binder_injectivity
+    check_binder_injectivity(cx, rep, ['::ord::ord_enum', '::partial_ord::partial_ord_enum'])
     rep.floor('DISCR-SAFE', 2)
     selftest(rep)
     rep.assumptions += ['safe Rust cannot observe enum layout', 'Rust reference: implicit discriminant = previous + 1, first = 0']
@@ -135,7 +138,7 @@ def check_match_shape(cx, t, fn, sites, rep):
             # constant body is only allowed when no variant arm exists (empty enum)
             from ..emptiness import empty_evidence
             from ..facts import Facts as _F
-            guard_ok = empty_evidence(_F(cx).atoms(bs.ctx, cx.fw(fn)))
+            guard_ok = empty_evidence(_F(cx).atoms(bs.ctx, cx.fw(fn)), cx, cx.fw(fn))
             if guard_ok:
                 rep.ok('DISCR-MATCH', '%s|empty-enum-constant' % where)
             else:
